@@ -4,6 +4,8 @@ import (
 	"testing"
 	"time"
 
+	"github.com/arm-doe/sts"
+
 	"verif/harness/vt"
 )
 
@@ -65,3 +67,81 @@ func propHeldThenNewVersion(t *vt.T) {
 }
 
 func TestC01HeldThenNewVersion(t *testing.T) { vt.CheckBubble(t, "C01", propHeldThenNewVersion) }
+
+// C01 directed: "a complete copy that does not hash is never delivered and is reported failed" -
+// also when the name was delivered before with other content, the record of that delivery has
+// aged out of the receiver's memory (25 h, restart) and something makes the receiver read its
+// log again (an old file completing, a query, a poll with an old start time).
+func propRejectedCopyReported(t *vt.T) {
+	w := NewWorld(t, "C01")
+	s := &Scenario{w: w, t: t, p: Profile{Prop: "C01"}, psize: t.IntRange("partSize", 1, 4)}
+	defer s.Close()
+	if t.Bool("firstPoll") {
+		w.st.GetFileStatus("no/such/file", time.Now().Add(-time.Hour))
+	}
+	v1 := &Version{Name: "d/f.dat", Data: s.newContent(s.psize*t.IntRange("v1Parts", 1, 3) + t.IntRange("v1Rest", 0, 1)), Time: time.Now().Add(-3 * time.Hour)}
+	other := &Version{Name: "d/other.dat", Data: s.newContent(s.psize + 1), Time: time.Now().Add(-4 * time.Hour)}
+	w.AddVersion(v1)
+	w.AddVersion(other)
+	s.files = []*fileState{{cur: v1, parts: tile(v1, s.psize)}}
+	w.Request(tile(v1, s.psize))
+	w.Settle()
+	s.observe()
+	if w.arrivedCount(v1) != 1 {
+		t.Skip("first version not delivered")
+	}
+	ageing := t.Pick("ageing", 4)
+	if ageing == 1 || ageing == 3 {
+		w.Advance(25 * time.Hour)
+		s.observeSettled()
+		t.Class("delivery-aged-25h")
+	}
+	if ageing >= 2 {
+		w.Restart()
+		s.observe()
+		t.Class("restart-after-delivery")
+	}
+	size := len(v1.Data)
+	if t.Bool("otherSize") {
+		size = s.psize*t.IntRange("v2Parts", 2, 4) + 1
+	}
+	v2 := &Version{Name: "d/f.dat", Data: s.newContent(size), Time: time.Now().Add(-time.Duration(t.IntRange("v2AgeMin", 0, 170)) * time.Minute)}
+	w.AddVersion(v2)
+	s.files = []*fileState{{cur: v2, parts: tile(v2, s.psize)}}
+	parts := tile(v2, s.psize)
+	k := t.Pick("flippedPart", len(parts))
+	parts[k].Fault = FFlip
+	parts[k].At = int64(t.IntRange("flipAt", 0, int(parts[k].End-parts[k].Beg)-1))
+	w.Request(parts)
+	w.Settle()
+	s.observe()
+	t.Class("corrupt-complete-copy-of-new-version")
+	t.NonTrivial()
+	switch t.Pick("logReader", 4) {
+	case 1:
+		w.Request(tile(other, s.psize)) // an old file completes: the receiver reads its log further back
+		w.Settle()
+		s.observe()
+		t.Class("old-file-completes-afterwards")
+	case 2:
+		w.Query(tile(v2, s.psize))
+	case 3:
+		w.Poll(other)
+	}
+	code := w.Poll(v2)
+	t.Note("poll for %s after the rejected copy of its new version -> %d", v2.Name, code)
+	if code == sts.ConfirmPassed || code == sts.ConfirmWaiting {
+		w.viol("C01", "rejected-copy-reported-positive", "a complete copy of the new version of %s arrived corrupt (byte flipped in part %d) and cannot have been validated, yet the poll for that name answers %d (passed/waiting)", v2.Name, k, code)
+	}
+	// the clean copy then goes through
+	w.Request(tile(v2, s.psize))
+	w.Settle()
+	s.observe()
+	w.Advance(11 * time.Second)
+	s.observeSettled()
+	if w.arrivedCount(v2) != 1 {
+		t.Class("clean-copy-not-delivered-at-once")
+	}
+}
+
+func TestC01RejectedCopyReported(t *testing.T) { vt.CheckBubble(t, "C01", propRejectedCopyReported) }
